@@ -216,7 +216,8 @@ def run(ck):
                 recs.append(r)
                 rcases.append({'key': f'{c["key"]}#{r["act"]}#{k}', 'smi': c['smi'], 'rs': c['rs'], 'nrand': c['nrand']})
         res = ck.validate('actions', 'Trace_C01', rcases, recs, nontrivial=lambda c: True)
-        ck.ood('outside-C01-domain(symmetric centre / cage)', res['out'].count('"INFO"'))
+        ck.ood('outside-C01-domain(symmetric centre / cage)', res['out'].count('"ood"'))
+        ck.ood('respelling-read-back-is-not-the-same-structure(judged by C02)', res['out'].count('"notspelling"'))
         for r in recs:
             ck.count(r['kind'] + ':' + r['act'])
     # exhaustive: every labelled graph on <= n atoms
